@@ -91,6 +91,16 @@ func c11Histories(sc *Scenario) [][]Op {
 		for i := 0; i < 120; i++ {
 			out = append(out, []Op{Pick(g, alphabet), Pick(g, alphabet), {Op: "package", Format: Pick(g, Formats)}})
 		}
+		// state that needs three operations to show: the same format twice,
+		// then another one; and a format, another one, the first again
+		for _, f := range Formats {
+			for _, h := range Formats {
+				out = append(out, []Op{{Op: "package", Format: f}, {Op: "package", Format: f}, {Op: "package", Format: h}})
+				if f != h {
+					out = append(out, []Op{{Op: "package", Format: f}, {Op: "package", Format: h}, {Op: "package", Format: f}})
+				}
+			}
+		}
 	}
 	for i := 0; i < plan.NRandom; i++ {
 		n := g.Range(3, 12)
